@@ -759,6 +759,24 @@ def run(prog, rep, tier):
         rep.violation(R611, "%s|%s|walk-inside-pool" % (n_[0], n_[2]), "%s (line %d) hands rayon's %s() a closure that reaches %s; jwalk needs a free thread of the same pool and reports 'thread-pool too busy' when there is none, "
                       "so on machines with few cores directory arguments are silently dropped - the output depends on core count and scheduling" % (n_[0], n_[1], n_[2], sorted(set(prog.reachable_fns([n_[3]])) & walkers)[0].split("::")[-1]))
 
+    # ------------------------------------------------------------ R6.12 nothing depends on the iteration order of a randomly seeded hash container
+    # std's HashMap/HashSet are seeded per process: two runs of the same command iterate them in
+    # different orders.  Every iteration over one (whole program, release view) must compute something
+    # that is independent of that order; see hashorder.py for the recognised idioms.  Found with this
+    # rule's reasoning: FixedStructReader::score_file iterated the candidate layouts (a HashMap) and kept
+    # the first that reached the highest score - a 21608-byte lastlog on which two layouts tie was
+    # printed under the 292-byte layout in 24 of 60 runs and under the 296-byte layout in 36 (F45).
+    import hashorder
+    R612 = rep.rule("R6.12", "no output and no choice depends on the iteration order of a randomly seeded HashMap/HashSet")
+    sites612 = hashorder.analyse(prog)
+    for n612_, s_ in enumerate(sites612):
+        rep.examined(R612, "%s|%s|%s#%d" % (s_["fn"], s_["container"], s_["producer"], n612_), sample={"function": s_["fn"], "line": s_["line"], "container": s_["container"], "verdict": s_["verdict"], "why": s_["why"][:3]})
+        if s_["verdict"] == "sensitive":
+            rep.violation(R612, "%s|%s|hash-order" % (s_["fn"], s_["container"]), "%s (line %s) iterates a %s, whose order changes from run to run (randomly seeded hasher), and %s; "
+                          "the same command on the same files can print different bytes" % (s_["fn"], s_["line"], s_["container"], "; ".join(s_["why"][:2])))
+    if len(sites612) < 3:
+        raise CheckerError("R6.12: only %d iterations over hash containers found (processing_loop alone has several)" % len(sites612))
+
     if not c01_run_ok and not rep.violations:
         raise c01_deferred
     return rep.finish(
